@@ -283,6 +283,8 @@ class Kinds(object):
             self._bind(target.value, set(["list"]), None, f, env, view)
 
     def _propagate_args(self, call, f, env):
+        if f is not None and f.qualname == "odml.validation.Validation.validate" and isinstance(call.func, ast.Name):
+            return      # registry dispatch: parameter kinds of the handlers are seeded per registration kind
         for tgt in self.resolve_call(call, f, env):
             if not isinstance(tgt, FuncInfo):
                 continue
